@@ -89,7 +89,7 @@ def run_case(n, adj, root, rng, agree, draws, sigma_scale):
     displ = rng.normal(size=3) * rng.choice([0.0, 1e-6, 0.05, 0.5], p=[0.1, 0.2, 0.4, 0.3])
     keep = pos.copy()
     out = move_mol_atom(pos, table, atom_index=root - 1, displ=displ.copy(), sigma_scale=sigma_scale)
-    look = table.lookups
+    look = list(table.lookups)
     ev.append({'op': 'Displace', 'exact_vector': bool(np.array_equal(out[root - 1], keep[root - 1] + displ)),
                'input_intact': bool(np.array_equal(pos, keep))})
     for c in look[1:]:
@@ -101,8 +101,24 @@ def run_case(n, adj, root, rng, agree, draws, sigma_scale):
             exact.append([a + 1, b + 1])
     processed = {root - 1} | set(look[1:])
     others = [i for i in range(n) if i not in processed]
-    ev.append({'op': 'End', 'finite': bool(np.isfinite(out).all()), 'exact': exact,
-               'others_intact': bool(all(np.array_equal(out[i], keep[i]) for i in others))})
+    intact = bool(all(np.array_equal(out[i], keep[i]) for i in others))
+    # state must not be carried from call to call: the result belongs to the caller (overwritten here), and the same
+    # table object, updated in place to other bond lengths, must be honoured by the next move of the same atom
+    first = out.copy()
+    out[...] = np.nan
+    again = move_mol_atom(pos, table, atom_index=root - 1, displ=displ.copy(), sigma_scale=sigma_scale)
+    intact = intact and bool(np.array_equal(again, first))
+    if n > 1 and adj[root - 1]:
+        scale = float(rng.choice([0.5, 1.7]))
+        for a in list(table.keys()):
+            dict.__setitem__(table, a, [(b, L * scale) for b, L in dict.__getitem__(table, a)])
+        third = move_mol_atom(pos, table, atom_index=root - 1, displ=displ.copy(), sigma_scale=sigma_scale)
+        nb0 = adj[root - 1][0] - 1
+        want = lengths[(min(root - 1, nb0), max(root - 1, nb0))] * scale
+        intact = intact and abs(float(np.linalg.norm(third[root - 1] - third[nb0])) - want) <= 1e-9 * want
+        for a in list(table.keys()):
+            dict.__setitem__(table, a, [(b, L / scale) for b, L in dict.__getitem__(table, a)])
+    ev.append({'op': 'End', 'finite': bool(np.isfinite(first).all()), 'exact': exact, 'others_intact': intact})
     # random displacements of the root
     if adj[root - 1]:
         nb = [b - 1 for b in adj[root - 1]]
